@@ -240,5 +240,5 @@ func run(c Case) vt.Verdict {
 }
 
 func TestProp(t *testing.T) {
-	vt.Run(t, prop, vt.Sub[Case]{Prop: prop, Name: "history", Gen: gen, Run: run, Classify: classify}.WithBudget(2500, 25000))
+	vt.Run(t, prop, vt.Sub[Case]{Prop: prop, Name: "history", Gen: gen, Run: run, Classify: classify}.WithBudget(8000, 40000))
 }
